@@ -1,5 +1,11 @@
 package harness
 
-import "runtime"
+import (
+	"runtime"
+
+	"seehuhn.de/go/sfnt/glyph"
+)
 
 func runtimeStack(buf []byte) int { return runtime.Stack(buf, false) }
+
+func glyphID(i int) glyph.ID { return glyph.ID(i) }
